@@ -5,7 +5,7 @@
    them.  gzip, protobuf and JSON decoders are oracles: [gunzip] is any function that returns an
    error rather than panicking and whose output stays below 512 MiB. *)
 From Coq Require Import String.
-From DV Require Import Base.Prelude Base.Int Gen.Consts Model.Parse Proofs.Parse.
+From DV Require Import Base.Prelude Base.Int Gen.Consts Gen.Throttle Model.Parse Proofs.Parse.
 Local Open Scope list_scope.
 Local Open Scope N_scope.
 
@@ -76,6 +76,15 @@ Theorem C20_allocation_bounded : forall s : bytes,
   frame_alloc true s <= len s /\ rles_alloc true s <= 65536.
 Proof. intro s. split; [apply frame_alloc_bounded | apply rles_alloc_bounded]. Qed.
 Print Assumptions C20_allocation_bounded.
+
+(* no request keeps the server-wide throttle slot: in every handler that calls
+   server.ThrottledHTTP the very next statement is `defer server.ThrottledOpDone()` (list
+   regenerated from the Go source by harness/cmd/gen/gen_throttle.go; a release that is not
+   deferred, or taken under another condition, is listed as false and breaks this theorem) *)
+Theorem C20_throttle_slot_released :
+  forallb (fun s : String.string * bool => snd s) throttle_sites = true /\ throttle_sites <> [].
+Proof. exact (conj throttle_sites_deferred throttle_sites_nonempty). Qed.
+Print Assumptions C20_throttle_slot_released.
 
 (* ---- the code as it stands violates each of them (witnesses reproduced on the real code by
    the driver's corpus) ---- *)
